@@ -172,6 +172,9 @@ fn arg<'a>(args: &'a [String], name: &str) -> Option<&'a str> {
 }
 
 fn explore(args: &[String]) {
+    if let Ok(v) = std::env::var("MQ_LEAKBT") {
+        allocs::DBG_SIZE.store(v.parse().unwrap_or(usize::MAX), std::sync::atomic::Ordering::Relaxed);
+    }
     let families: Vec<String> = arg(args, "--families").unwrap_or("ring").split(',').map(|s| s.to_string()).collect();
     let count: usize = arg(args, "--count").and_then(|s| s.parse().ok()).unwrap_or(50);
     let seed: u64 = arg(args, "--seed").and_then(|s| s.parse().ok()).unwrap_or(1);
@@ -215,8 +218,9 @@ fn explore(args: &[String]) {
             Strategy::FreezeThenSolo { .. } => "freeze_solo".to_string(),
             _ => "replay".to_string(),
         };
+        allocs::t_reset();
         let r = run_scenario(&sc, &strat, rng.next(), budget);
-        let vs = monitors::analyze(&sc, &r);
+        let mut vs = monitors::analyze(&sc, &r);
         total_steps += r.steps;
         total_calls += r.calls.len();
         *stats.entry(format!("family:{}", fam)).or_default() += 1;
@@ -245,6 +249,20 @@ fn explore(args: &[String]) {
             writeln!(f, "=== {}", name).unwrap();
             f.write_all(trace_text(&r.trace, &r.names).as_bytes()).unwrap();
         }
+        // C17 under concurrency: every block the queue allocated during the run has been released by now
+        let finished = matches!(r.outcome, Outcome::Finished);
+        let schedule_text = r.schedule.iter().map(|x| x.to_string()).collect::<Vec<_>>().join(" ");
+        let dbg_names = if std::env::var("MQ_LEAKDBG").is_ok() { Some(r.names.clone()) } else { None };
+        drop(r);
+        if finished {
+            let (tb, tn) = allocs::tracked();
+            if tn != 0 {
+                if std::env::var("MQ_LEAKDBG").is_ok() {
+                    eprintln!("LEFT {:?}", allocs::t_left().iter().map(|(p, l)| format!("{:#x}:{}:{:?}", p, l, dbg_names.as_ref().and_then(|n| n.get(p)))).collect::<Vec<_>>());
+                }
+                vs.push(monitors::Violation { prop: "C17", msg: format!("{} bytes in {} blocks that the queue allocated during the run are still allocated after the last handle was dropped", tb, tn) });
+            }
+        }
         if !vs.is_empty() {
             std::fs::create_dir_all(replay_dir).ok();
             let path = format!("{}/{}.replay", replay_dir, name);
@@ -253,7 +271,7 @@ fn explore(args: &[String]) {
                 t.push_str(&format!("prop {}\nmsg {}\n", v.prop, v.msg));
             }
             t.push_str(&scenario_text(&sc));
-            t.push_str(&format!("schedule {}\n", r.schedule.iter().map(|x| x.to_string()).collect::<Vec<_>>().join(" ")));
+            t.push_str(&format!("schedule {}\n", schedule_text));
             std::fs::write(&path, t).unwrap();
             for v in &vs {
                 viols.push((v.prop.to_string(), v.msg.clone(), path.clone()));
